@@ -1291,13 +1291,16 @@ def r16_4(chk: Check):
 
 
 def rules(chk: Check) -> None:
-    G = _grid(chk)
-    deriv_terms = r16_1(chk, G)
-    r16_2(chk, G, deriv_terms)
-    r16_3(chk, G)
-    r16_4(chk)
     # R16.5: exactness "for every call history": the read-only methods leave the stored coefficients untouched
-    coefficients_not_modified(chk, "R16.5")
+    chk.stage(coefficients_not_modified, chk, "R16.5")
+    G = chk.stage(_grid, chk)
+    if G is None:
+        return
+    deriv_terms = chk.stage(r16_1, chk, G)
+    if deriv_terms is not None:
+        chk.stage(r16_2, chk, G, deriv_terms)
+    chk.stage(r16_3, chk, G)
+    chk.stage(r16_4, chk)
     chk.floor("R16.5", 6)
 
 
